@@ -1067,6 +1067,8 @@ def sig_c16(f):
         return f"C16|error-for-success|scenario={f['scenario']}|kind={f.get('kind')}"
     if r in ("call-did-not-complete", "runtime-hang", "runtime-crash"):
         return f"C16|{r}"
+    if r == "refused-error-kind":
+        return f"C16|connection-refused|result={f.get('result')}|kind={f.get('kind')}"
     return None
 
 
